@@ -361,7 +361,7 @@ def Ty.fragList : List Ty → Bool
   | t :: ts => t.frag && Ty.fragList ts
 def Field.frag : Field → Bool
   | .field _ t => t.frag
-  | .spread _ _ => false
+  | .spread _ args => Ty.fragList args
 def Field.fragList : List Field → Bool
   | [] => true
   | f :: fs => f.frag && Field.fragList fs
@@ -479,16 +479,6 @@ theorem printAtom_head {t : Ty} (hf : t.frag = true) (hw : t.wf = true) :
   | func i o => exact ⟨'(', _, by simp [printAtom, atomWrap]; rfl, rfl⟩
   | union ts => exact ⟨'(', _, by simp [printAtom, atomWrap, printTy]; rfl, rfl⟩
   | tuple name fs p =>
-    have hns : fs.any Field.isSpread = false := by
-      simp only [Ty.frag] at hf
-      clear hw
-      induction fs with
-      | nil => rfl
-      | cons f fs ih =>
-        simp only [Field.fragList, Bool.and_eq_true] at hf
-        cases f with
-        | field nm ty => simp [Field.isSpread, ih hf.2]
-        | spread a b => simp [Field.frag] at hf
     cases name with
     | none =>
       cases p with
@@ -501,17 +491,23 @@ theorem printAtom_head {t : Ty} (hf : t.frag = true) (hw : t.wf = true) :
         | nil => exact ⟨'(', [')'], rfl, rfl⟩
         | cons f fs => exact ⟨'(', _, by simp [printAtom, atomWrap, printTy]; rfl, rfl⟩
     | some n =>
-      have hn : isTupleNameStr n = true := by
-        cases p <;> simp only [Ty.wf, Bool.and_eq_true, Bool.or_eq_true, hns] at hw <;>
-          (rcases hw.2 with h | h
-           · exact h
-           · simp at h)
-      obtain ⟨c, r, rfl, hc⟩ := isTupleNameStr_head hn
-      have hl : startsLower (c :: r) = false := by simp [startsLower, (upper_facts hc).1]
-      cases p <;> cases fs with
-      | nil => exact ⟨c, _, by simp [printAtom, atomWrap, printTy, hl]; rfl, by simp [atomHead, hc]⟩
-      | cons f fs =>
-        exact ⟨c, _, by simp [printAtom, atomWrap, printTy, hl]; rfl, by simp [atomHead, hc]⟩
+      have hcase : isTupleNameStr n = true ∨ isIdentStr n = true := by
+        simp only [Ty.wf, Bool.and_eq_true, Bool.or_eq_true] at hw
+        rcases hw.2 with h | h
+        · exact Or.inl h
+        · exact Or.inr h.1.1.1
+      rcases hcase with hn | hn
+      · obtain ⟨c, r, rfl, hc⟩ := isTupleNameStr_head hn
+        have hl : startsLower (c :: r) = false := by simp [startsLower, (upper_facts hc).1]
+        cases p <;> cases fs with
+        | nil => exact ⟨c, _, by simp [printAtom, atomWrap, printTy, hl]; rfl, by simp [atomHead, hc]⟩
+        | cons f fs =>
+          exact ⟨c, _, by simp [printAtom, atomWrap, printTy, hl]; rfl, by simp [atomHead, hc]⟩
+      · obtain ⟨c, r, rfl, hc⟩ := isIdentStr_head hn
+        have hl : startsLower (c :: r) = true := by simp [startsLower, hc]
+        cases p <;> cases fs with
+        | nil => exact ⟨'\'', _, by simp [printAtom, atomWrap, printTy, hl]; rfl, rfl⟩
+        | cons f fs => exact ⟨'\'', _, by simp [printAtom, atomWrap, printTy, hl]; rfl, rfl⟩
   | inter ts => exact ⟨'(', _, by simp [printAtom, atomWrap]; rfl, rfl⟩
   | proc a r => simp [Ty.frag] at hf
   | modty a b c => exact ⟨'\'', _, by simp [printAtom, atomWrap, printTy]; rfl, rfl⟩
@@ -625,6 +621,70 @@ theorem typeHead_facts {c : Char} (h : typeHead c = true) :
   · subst h; decide
   · subst h; decide
 
+theorem typeName_fails_head' {i : Str} (h : headAll (· ≠ '\'') i = true) : Fails typeName i :=
+  Fails.seq (pchar_fails_of_head h)
+
+/-! ### Type arguments `<a, b>` -/
+
+theorem stopTd_gt (s : Str) : stopTd ('>' :: s) = true := by
+  have h1 : skipWsc false ('>' :: s) = '>' :: s := skipWsc_of_head (by simp [headAll, isMultispace])
+  simp [stopTd, stopB, h1, headAll, contChar, isIdentBody, isLower, isUpper, isDigit, isMultispace]
+
+theorem commaWs0_step {X : Str} (h : headAll (fun c => !isMultispace c) X = true) :
+    commaWs0 (',' :: ' ' :: X) = .ok () X := by
+  unfold commaWs0
+  rw [seq_ok (ws0_of_head (by simp [headAll, isMultispace])), seq_ok (pchar_self _ _)]
+  have : (' ' :: X).dropWhile isMultispace = X := by
+    rw [List.dropWhile_cons, if_pos (by decide)]
+    cases X with
+    | nil => rfl
+    | cons c t =>
+      have : isMultispace c = false := by simpa [headAll] using h
+      simp [List.dropWhile_cons, this]
+  simp [ws0, this]
+
+theorem commaWs0_fails_gt (rest : Str) : Fails commaWs0 ('>' :: rest) :=
+  Fails.seq_ok (a := ()) (r := '>' :: rest) (ws0_of_head (by simp [headAll, isMultispace]))
+    (Fails.seq (pchar_ne (by decide) _))
+
+theorem sepList1_cons {α β : Type} {sep : P β} {p : P α} {i r r' : Str} {a : α} {as : List α}
+    (h : p i = .ok a r) (ht : sepTail sep p r = .ok as r') :
+    sepList1 sep p i = .ok (a :: as) r' := by
+  unfold sepTail at ht; simp [sepList1, h, ht]
+
+theorem printTys_eq (ts : List Ty) : printTys ts = ts.map printTy := by
+  induction ts with
+  | nil => rfl
+  | cons t ts ih => simp [printTys, ih]
+
+theorem stopTd_args_tail (as : List Ty) (rest : Str) :
+    stopTd ((as.map ([',', ' '] ++ printTy ·)).flatten ++ '>' :: rest) = true := by
+  cases as with
+  | nil => exact stopTd_gt _
+  | cons a as => exact stopTd_of_close _ (Or.inl rfl)
+
+/-- what follows `'name` / `'` / a module path when type arguments may follow: not a name character,
+    not `%`, `[`, a lowercase letter -/
+theorem angle_head (args : List Ty) {rest : Str} (hr : stopB rest = true) :
+    IdStop (angle (printTys args) ++ rest) ∧
+    headAll (fun c => !isLower c && c != '%' && c != '[') (angle (printTys args) ++ rest) = true := by
+  cases args with
+  | nil =>
+    simp only [printTys, angle, List.isEmpty_nil, if_true, List.nil_append]
+    refine ⟨stopB_idstop hr, ?_⟩
+    cases rest with
+    | nil => rfl
+    | cons c t =>
+      have h1 := stopB_head hr (c := '%') rfl
+      have h2 := stopB_head hr (c := '[') rfl
+      have h3 := (stopB_idstop hr).1
+      simp only [headAll, decide_eq_true_eq] at h1 h2
+      simp only [isIdentBody, Bool.or_eq_false_iff] at h3
+      simp [headAll, h1, h2, h3.1.1.1]
+  | cons a as =>
+    simp only [printTys, angle, List.isEmpty_cons, Bool.false_eq_true, if_false, List.cons_append]
+    exact ⟨by simp [IdStop, isIdentBody, isLower, isUpper, isDigit], by simp [headAll, isLower]⟩
+
 section
 variable {k : Knot} {L : Nat} (hk : GoodK k L)
 include hk
@@ -676,11 +736,95 @@ theorem paren_wrap {c : Char} {s rest : Str} {t' : Ty} (hc1 : c ≠ '@')
     rw [seq_ok (ws0_of_head (by simp [headAll, isMultispace])), pchar_self]
   exact ⟨base_paren k hpart hproc hgrp, fio_paren k hpart hgrp⟩
 
+theorem args_tail : ∀ as : List Ty, Ty.fragList as = true → Ty.wfList as = true →
+    Ty.lvAList as ≤ L → ∀ rest : Str,
+    sepTail commaWs0 k.td ((as.map ([',', ' '] ++ printTy ·)).flatten ++ '>' :: rest) =
+      .ok as ('>' :: rest) := by
+  intro as
+  induction as with
+  | nil => intro _ _ _ rest; exact sepTail_of_fails (commaWs0_fails_gt rest)
+  | cons a as ih =>
+    intro hf hw hl rest
+    simp only [Ty.fragList, Ty.wfList, Bool.and_eq_true] at hf hw
+    have hl1 : a.lvT ≤ L := Nat.le_trans a.lvT_le_lvA (Nat.le_trans (Nat.le_max_left _ _) hl)
+    have hl2 : Ty.lvAList as ≤ L := Nat.le_trans (Nat.le_max_right _ _) hl
+    simp only [List.map_cons, List.flatten_cons, List.append_assoc, List.cons_append,
+      List.nil_append]
+    obtain ⟨c, s, hp, hc⟩ := printTy_head hf.1 hw.1
+    have hws := (typeHead_facts hc).2.2.2.2.2.2
+    refine sepTail_cons Sound.commaWs0 hk.sound.1
+      (commaWs0_step (by rw [hp]; simp [headAll, hws])) (by simp; omega) ?_ (ih hf.2 hw.2 hl2 rest)
+    exact hk.td a hf.1 hw.1 hl1 _ (stopTd_args_tail as rest)
+
+theorem optArgs_ok {args : List Ty} (hf : Ty.fragList args = true) (hw : Ty.wfList args = true)
+    (hl : Ty.lvAList args ≤ L) {rest : Str} (hr : stopB rest = true) :
+    optArgs k (angle (printTys args) ++ rest) = .ok args rest ∧
+    opt (typeArgs k) (angle (printTys args) ++ rest) =
+      .ok (if args.isEmpty then none else some args) rest := by
+  cases args with
+  | nil =>
+    simp only [printTys, angle, List.isEmpty_nil, if_true, List.nil_append]
+    unfold optArgs
+    rw [pmap_ok (opt_of_fails (typeArgs_fails_stop k hr))]
+    exact ⟨rfl, opt_of_fails (typeArgs_fails_stop k hr)⟩
+  | cons a as =>
+    simp only [Ty.fragList, Ty.wfList, Bool.and_eq_true] at hf hw
+    have hl1 : a.lvT ≤ L := Nat.le_trans a.lvT_le_lvA (Nat.le_trans (Nat.le_max_left _ _) hl)
+    have hl2 : Ty.lvAList as ≤ L := Nat.le_trans (Nat.le_max_right _ _) hl
+    have hta : typeArgs k (angle (printTys (a :: as)) ++ rest) = .ok (a :: as) rest := by
+      have hang : angle (printTys (a :: as)) ++ rest =
+          '<' :: (printTy a ++ ((as.map ([',', ' '] ++ printTy ·)).flatten ++ '>' :: rest)) := by
+        simp only [angle, printTys_eq, List.map_cons, List.isEmpty_cons, Bool.false_eq_true, if_false]
+        rw [sepBy_cons, List.map_map]
+        simp
+        rfl
+      rw [hang]
+      unfold typeArgs delimited
+      rw [seq_ok (pchar_self _ _)]
+      exact before_ok (sepList1_cons (hk.td a hf.1 hw.1 hl1 _ (stopTd_args_tail as rest))
+        (args_tail hk as hf.2 hw.2 hl2 rest)) (pchar_self _ _)
+    unfold optArgs
+    rw [pmap_ok (opt_ok hta)]
+    exact ⟨rfl, by simpa using opt_ok hta⟩
+
 /-- one field followed by a text that ends a type -/
 theorem field_ok {f : Field} (hf : f.frag = true) (hw : f.wf = true) (hl : f.lv ≤ L) {tail : Str}
     (ht : stopTd tail = true) : fieldType k (printField f ++ tail) = .ok f tail := by
   cases f with
-  | spread a b => simp [Field.frag] at hf
+  | spread o args =>
+    simp only [Field.frag] at hf
+    have hrb := stopTd_stopB ht
+    cases o with
+    | none =>
+      have hargs : args = [] := by
+        cases args with
+        | nil => rfl
+        | cons a as => simp [Field.wf] at hw
+      subst hargs
+      have htn : Fails typeName tail := typeName_fails_head' (stopB_head hrb (c := '\'') rfl)
+      simp only [printField]
+      unfold fieldType
+      rw [alt_of_ok]
+      rw [seq_ok (ptag_append _ _), pmap_ok (opt_of_fails (Fails.bind htn))]
+    | some id =>
+      simp only [Field.wf, Bool.and_eq_true] at hw
+      have hla : Ty.lvAList args ≤ L := by simpa [Field.lv] using hl
+      have hah := angle_head args hrb
+      have htn : typeName ('\'' :: (id ++ (angle (printTys args) ++ tail))) =
+          .ok id (angle (printTys args) ++ tail) := by
+        unfold typeName
+        rw [seq_ok (pchar_self _ _)]
+        exact identifier_append hw.1 hah.1
+      have hp : printField (.spread (some id) args) ++ tail =
+          ['.', '.', '.'] ++ ('\'' :: (id ++ (angle (printTys args) ++ tail))) := by
+        simp [printField]
+      rw [hp]
+      unfold fieldType
+      rw [alt_of_ok]
+      rw [seq_ok (ptag_append _ _)]
+      rw [pmap_ok (opt_ok (r := tail) (a := (id, if args.isEmpty then none else some args)) (by
+        rw [bind_ok htn, pmap_ok (optArgs_ok hk hf hw.2 hla hrb).2]))]
+      cases args <;> simp
   | field nm ty =>
     simp only [Field.frag] at hf
     have hlv : ty.lvT ≤ L := Nat.le_trans ty.lvT_le_lvA (by simpa [Field.lv] using hl)
@@ -732,7 +876,7 @@ theorem lower_not_ws {d : Char} (h : isLower d = true) :
 theorem printField_head {f : Field} (hf : f.frag = true) (hw : f.wf = true) (tail : Str) :
     headAll (fun c => !isMultispace c && c != '/') (printField f ++ tail) = true := by
   cases f with
-  | spread a b => simp [Field.frag] at hf
+  | spread o args => cases o <;> simp [printField, headAll, isMultispace]
   | field nm ty =>
     simp only [Field.frag] at hf
     cases nm with
@@ -861,16 +1005,6 @@ theorem printTy_tuple_none (fs : List Field) :
     printTy (.tuple none fs false) = '[' :: (sepBy [',', ' '] (printFieldsL fs) ++ [']']) := by
   cases fs <;> simp [printTy, sepBy, printFieldsL]
 
-theorem frag_no_spread {fs : List Field} (hf : Field.fragList fs = true) :
-    fs.any Field.isSpread = false := by
-  induction fs with
-  | nil => rfl
-  | cons f fs ih =>
-    simp only [Field.fragList, Bool.and_eq_true] at hf
-    cases f with
-    | field nm ty => simp [Field.isSpread, ih hf.2]
-    | spread a b => simp [Field.frag] at hf
-
 theorem barOp_step {c : Char} {X : Str} (hc : c = '|' ∨ c = '&')
     (h : headAll (fun c => !isMultispace c && c != '/') X = true) :
     barOp c (' ' :: c :: ' ' :: X) = .ok () X := by
@@ -891,77 +1025,64 @@ theorem stopB_bar (s : Str) : stopB (' ' :: '|' :: s) = true := by
 theorem stopB_arrow (s : Str) : stopB (' ' :: '-' :: s) = true := by
   simp [stopB, headAll, contChar, isIdentBody, isLower, isUpper, isDigit, isMultispace]
 
-/-! ### Type arguments `<a, b>` -/
-
-theorem stopTd_gt (s : Str) : stopTd ('>' :: s) = true := by
-  have h1 : skipWsc false ('>' :: s) = '>' :: s := skipWsc_of_head (by simp [headAll, isMultispace])
-  simp [stopTd, stopB, h1, headAll, contChar, isIdentBody, isLower, isUpper, isDigit, isMultispace]
-
-theorem commaWs0_step {X : Str} (h : headAll (fun c => !isMultispace c) X = true) :
-    commaWs0 (',' :: ' ' :: X) = .ok () X := by
-  unfold commaWs0
-  rw [seq_ok (ws0_of_head (by simp [headAll, isMultispace])), seq_ok (pchar_self _ _)]
-  have : (' ' :: X).dropWhile isMultispace = X := by
-    rw [List.dropWhile_cons, if_pos (by decide)]
-    cases X with
-    | nil => rfl
-    | cons c t =>
-      have : isMultispace c = false := by simpa [headAll] using h
-      simp [List.dropWhile_cons, this]
-  simp [ws0, this]
-
-theorem commaWs0_fails_gt (rest : Str) : Fails commaWs0 ('>' :: rest) :=
-  Fails.seq_ok (a := ()) (r := '>' :: rest) (ws0_of_head (by simp [headAll, isMultispace]))
-    (Fails.seq (pchar_ne (by decide) _))
-
-theorem sepList1_cons {α β : Type} {sep : P β} {p : P α} {i r r' : Str} {a : α} {as : List α}
-    (h : p i = .ok a r) (ht : sepTail sep p r = .ok as r') :
-    sepList1 sep p i = .ok (a :: as) r' := by
-  unfold sepTail at ht; simp [sepList1, h, ht]
-
-theorem printTys_eq (ts : List Ty) : printTys ts = ts.map printTy := by
-  induction ts with
-  | nil => rfl
-  | cons t ts ih => simp [printTys, ih]
-
-theorem stopTd_args_tail (as : List Ty) (rest : Str) :
-    stopTd ((as.map ([',', ' '] ++ printTy ·)).flatten ++ '>' :: rest) = true := by
-  cases as with
-  | nil => exact stopTd_gt _
-  | cons a as => exact stopTd_of_close _ (Or.inl rfl)
-
-/-- what follows `'name` / `'` / a module path when type arguments may follow: not a name character,
-    not `%`, `[`, a lowercase letter -/
-theorem angle_head (args : List Ty) {rest : Str} (hr : stopB rest = true) :
-    IdStop (angle (printTys args) ++ rest) ∧
-    headAll (fun c => !isLower c && c != '%' && c != '[') (angle (printTys args) ++ rest) = true := by
-  cases args with
-  | nil =>
-    simp only [printTys, angle, List.isEmpty_nil, if_true, List.nil_append]
-    refine ⟨stopB_idstop hr, ?_⟩
-    cases rest with
-    | nil => rfl
-    | cons c t =>
-      have h1 := stopB_head hr (c := '%') rfl
-      have h2 := stopB_head hr (c := '[') rfl
-      have h3 := (stopB_idstop hr).1
-      simp only [headAll, decide_eq_true_eq] at h1 h2
-      simp only [isIdentBody, Bool.or_eq_false_iff] at h3
-      simp [headAll, h1, h2, h3.1.1.1]
-  | cons a as =>
-    simp only [printTys, angle, List.isEmpty_cons, Bool.false_eq_true, if_false, List.cons_append]
-    exact ⟨by simp [IdStop, isIdentBody, isLower, isUpper, isDigit], by simp [headAll, isLower]⟩
-
 section
 variable {k : Knot} {L : Nat} (hk : GoodK k L)
 include hk
+
+omit hk in
+theorem inherit_id (n : Str) : ∀ fs : List Field, fs.any Field.isBareSpread = false →
+    fs.map (Field.inheritSpread n) = fs := by
+  intro fs
+  induction fs with
+  | nil => intro _; rfl
+  | cons f fs ih =>
+    intro h
+    simp only [List.any_cons, Bool.or_eq_false_iff] at h
+    rw [List.map_cons, ih h.2]
+    cases f with
+    | field nm t => rfl
+    | spread o args =>
+      cases o with
+      | none => simp [Field.isBareSpread] at h
+      | some x => rfl
+
+/-- `'alias[...'alias, x: T]`: a tuple type that inherits its name from an alias -/
+theorem alias_tuple_ok {n : Str} {fs : List Field} (hn : isIdentStr n = true)
+    (hf : Field.fragList fs = true) (hw : Field.wfList fs = true) (hl : Field.lvList fs ≤ L)
+    (hsp : fs.any Field.isSpread = true) (hbare : fs.any Field.isBareSpread = false) {rest : Str}
+    (hr : stopB rest = true) :
+    baseTypeWith k (printTy (.tuple (some n) fs false) ++ rest) = .ok (.tuple (some n) fs false) rest ∧
+    functionIoType k (printTy (.tuple (some n) fs false) ++ rest) = .ok (.tuple (some n) fs false) rest := by
+  have _ := hr
+  obtain ⟨c, r, hcr, hc⟩ := isIdentStr_head hn
+  have hlow : startsLower n = true := by subst hcr; simp [startsLower, hc]
+  cases fs with
+  | nil => simp at hsp
+  | cons f fs =>
+    have hp : printTy (.tuple (some n) (f :: fs) false) =
+        '\'' :: (n ++ '[' :: (sepBy [',', ' '] (printFieldsL (f :: fs)) ++ [']'])) := by
+      simp [printTy, hlow]
+    rw [hp]
+    simp only [List.cons_append, List.append_assoc, List.nil_append]
+    have htn : typeName ('\'' :: (n ++ '[' :: (sepBy [',', ' '] (printFieldsL (f :: fs)) ++ ']' :: rest))) =
+        .ok n ('[' :: (sepBy [',', ' '] (printFieldsL (f :: fs)) ++ ']' :: rest)) := by
+      unfold typeName
+      rw [seq_ok (pchar_self _ _)]
+      exact identifier_append hn (by simp [IdStop, isIdentBody, isLower, isUpper, isDigit])
+    have ht : tupleType k ('\'' :: (n ++ '[' :: (sepBy [',', ' '] (printFieldsL (f :: fs)) ++ ']' :: rest))) =
+        .ok (.tuple (some n) (f :: fs) false) rest := by
+      unfold tupleType
+      rw [alt_of_fails (Fails.bind (tupleName_fails_of_head (by simp [headAll, isUpper])))]
+      refine alt_of_ok (verify_ok (a := Ty.tuple (some n) (f :: fs) false) ?_ (by simpa using hsp))
+      rw [bind_ok htn, pmap_ok (fieldsIn_bracket hk hf hw hl rest), inherit_id n _ hbare]
+    exact ⟨base_of_tuple k ht, fio_of_tuple k (partialType_fails_head k (by simp [headAll, isUpper]))
+      (by simp [headAll]) ht⟩
 
 theorem tuple_ok {name : Option Str} {fs : List Field} (hf : Field.fragList fs = true)
     (hw : (Ty.tuple name fs false).wf = true) (hl : Field.lvList fs ≤ L) {rest : Str}
     (hr : stopB rest = true) :
     baseTypeWith k (printTy (.tuple name fs false) ++ rest) = .ok (.tuple name fs false) rest ∧
     functionIoType k (printTy (.tuple name fs false) ++ rest) = .ok (.tuple name fs false) rest := by
-  have hns := frag_no_spread hf
   simp only [Ty.wf, Bool.and_eq_true] at hw
   cases name with
   | none =>
@@ -976,12 +1097,16 @@ theorem tuple_ok {name : Option Str} {fs : List Field} (hf : Field.fragList fs =
     exact ⟨base_of_tuple k ht, fio_of_tuple k (partialType_fails_head k (by simp [headAll, isUpper]))
       (by simp [headAll]) ht⟩
   | some n =>
-    have hn : isTupleNameStr n = true := by
-      have := hw.2
-      simp only [hns, Bool.or_eq_true, Bool.and_eq_true] at this
-      rcases this with h | h
-      · exact h
-      · simp at h
+    by_cases hn : isTupleNameStr n = true
+    case neg =>
+      -- `'alias[..., x: T]`: the name is inherited from an alias
+      have hal : isIdentStr n = true ∧ fs.any Field.isSpread = true ∧ fs.any Field.isBareSpread = false := by
+        have := hw.2
+        simp only [Bool.or_eq_true, Bool.and_eq_true, Bool.not_eq_true', Bool.not_false] at this
+        rcases this with h | h
+        · exact absurd h hn
+        · exact ⟨h.1.1.1, h.1.2, h.2⟩
+      exact alias_tuple_ok hk hal.1 hf hw.1 hl hal.2.1 hal.2.2 hr
     obtain ⟨c, r, hcr, hc⟩ := isTupleNameStr_head hn
     have hup := upper_facts hc
     have hlow : startsLower n = false := by subst hcr; simp [startsLower, hup.1]
@@ -1037,7 +1162,6 @@ theorem partial_ok {name : Option Str} {fs : List Field} (hf : Field.fragList fs
     baseTypeWith k (printTy (.tuple name fs true) ++ rest) = .ok (.tuple name fs true) rest ∧
     functionIoType k (printTy (.tuple name fs true) ++ rest) = .ok (.tuple name fs true) rest := by
   have _ := hr
-  have hns := frag_no_spread hf
   simp only [Ty.wf, Bool.and_eq_true] at hw
   cases name with
   | none =>
@@ -1056,7 +1180,7 @@ theorem partial_ok {name : Option Str} {fs : List Field} (hf : Field.fragList fs
     · unfold functionIoType
       rw [alt_of_ok hpt]
   | some n =>
-    have hn : isTupleNameStr n = true := by simpa [hns] using hw.2
+    have hn : isTupleNameStr n = true := by simpa using hw.2
     obtain ⟨c, r, hcr, hc⟩ := isTupleNameStr_head hn
     have hup := upper_facts hc
     have hlow : startsLower n = false := by subst hcr; simp [startsLower, hup.1]
@@ -1093,57 +1217,6 @@ theorem partial_ok {name : Option Str} {fs : List Field} (hf : Field.fragList fs
       rw [alt_of_fails htt, alt_of_ok hpt]
     · unfold functionIoType
       rw [alt_of_ok hpt]
-
-theorem args_tail : ∀ as : List Ty, Ty.fragList as = true → Ty.wfList as = true →
-    Ty.lvAList as ≤ L → ∀ rest : Str,
-    sepTail commaWs0 k.td ((as.map ([',', ' '] ++ printTy ·)).flatten ++ '>' :: rest) =
-      .ok as ('>' :: rest) := by
-  intro as
-  induction as with
-  | nil => intro _ _ _ rest; exact sepTail_of_fails (commaWs0_fails_gt rest)
-  | cons a as ih =>
-    intro hf hw hl rest
-    simp only [Ty.fragList, Ty.wfList, Bool.and_eq_true] at hf hw
-    have hl1 : a.lvT ≤ L := Nat.le_trans a.lvT_le_lvA (Nat.le_trans (Nat.le_max_left _ _) hl)
-    have hl2 : Ty.lvAList as ≤ L := Nat.le_trans (Nat.le_max_right _ _) hl
-    simp only [List.map_cons, List.flatten_cons, List.append_assoc, List.cons_append,
-      List.nil_append]
-    obtain ⟨c, s, hp, hc⟩ := printTy_head hf.1 hw.1
-    have hws := (typeHead_facts hc).2.2.2.2.2.2
-    refine sepTail_cons Sound.commaWs0 hk.sound.1
-      (commaWs0_step (by rw [hp]; simp [headAll, hws])) (by simp; omega) ?_ (ih hf.2 hw.2 hl2 rest)
-    exact hk.td a hf.1 hw.1 hl1 _ (stopTd_args_tail as rest)
-
-theorem optArgs_ok {args : List Ty} (hf : Ty.fragList args = true) (hw : Ty.wfList args = true)
-    (hl : Ty.lvAList args ≤ L) {rest : Str} (hr : stopB rest = true) :
-    optArgs k (angle (printTys args) ++ rest) = .ok args rest ∧
-    opt (typeArgs k) (angle (printTys args) ++ rest) =
-      .ok (if args.isEmpty then none else some args) rest := by
-  cases args with
-  | nil =>
-    simp only [printTys, angle, List.isEmpty_nil, if_true, List.nil_append]
-    unfold optArgs
-    rw [pmap_ok (opt_of_fails (typeArgs_fails_stop k hr))]
-    exact ⟨rfl, opt_of_fails (typeArgs_fails_stop k hr)⟩
-  | cons a as =>
-    simp only [Ty.fragList, Ty.wfList, Bool.and_eq_true] at hf hw
-    have hl1 : a.lvT ≤ L := Nat.le_trans a.lvT_le_lvA (Nat.le_trans (Nat.le_max_left _ _) hl)
-    have hl2 : Ty.lvAList as ≤ L := Nat.le_trans (Nat.le_max_right _ _) hl
-    have hta : typeArgs k (angle (printTys (a :: as)) ++ rest) = .ok (a :: as) rest := by
-      have hang : angle (printTys (a :: as)) ++ rest =
-          '<' :: (printTy a ++ ((as.map ([',', ' '] ++ printTy ·)).flatten ++ '>' :: rest)) := by
-        simp only [angle, printTys_eq, List.map_cons, List.isEmpty_cons, Bool.false_eq_true, if_false]
-        rw [sepBy_cons, List.map_map]
-        simp
-        rfl
-      rw [hang]
-      unfold typeArgs delimited
-      rw [seq_ok (pchar_self _ _)]
-      exact before_ok (sepList1_cons (hk.td a hf.1 hw.1 hl1 _ (stopTd_args_tail as rest))
-        (args_tail hk as hf.2 hw.2 hl2 rest)) (pchar_self _ _)
-    unfold optArgs
-    rw [pmap_ok (opt_ok hta)]
-    exact ⟨rfl, by simpa using opt_ok hta⟩
 
 /-- `'name<args>` (an applied alias) and `'` / `'<args>` (the module's own default type) -/
 theorem quote_ok {rest : Str} (hr : stopB rest = true) :
